@@ -113,6 +113,8 @@ SPEC = [
          params=[("drift_rate", "Q"), ("tchans", "Z"), ("dt", "Q"), ("df", "Q")], ret="Z"),
     dict(group="17", name="dedrift_offset", file="setigen/dedrift.py", cls=None, func="dedrift", what="nth:offset:1",      # inside the loop over rows i
          params=[("drift_rate", "Q"), ("i", "Z"), ("dt", "Q"), ("df", "Q")], ret="Z"),
+    dict(group="17", name="normalise_elt", file="setigen/integrate.py", cls=None, func="integrate", what="nth:data:4",      # inside `if normalize`; elementwise on the integrated vector
+         params=[("data", "Q"), ("m", "Q"), ("s", "Q")], ret="Q", opaque={"np.mean(c_data)": "m", "np.std(c_data)": "s"}),
     dict(group="19", name="num_splits", file="setigen/split_utils.py", cls=None, func="split_waterfall_generator", what="nth:num_splits:2",   # else branch: fchans <= nchans
          params=[("nchans", "Z"), ("fchans", "Z"), ("f_shift", "Z")], ret="Z"),
     dict(group="19", name="piece_f_start", file="setigen/split_utils.py", cls=None, func="split_waterfall_generator", what="nth:f_start:1",   # inside the loop over pieces i
